@@ -65,8 +65,12 @@ def strat_rt(draw, tier):
     prot, params = draw(protection())
     if fam == "rsa":
         c["bits"] = draw(st.sampled_from([1024, 1025, 1031, 1536] if tier == "thorough" else [1024, 1025, 1031]))
-        c["e"] = draw(st.sampled_from([65537, 65537, 3, 17]))
+        # exponents and moduli whose leading byte sits at the sign-bit boundary of mpint / DER INTEGER encodings
+        c["e"] = draw(st.sampled_from([65537, 65537, 3, 17, 257, 0x8001, 0x800F, 0x80000001, 0xFFFF, 0x7FFF, 0x1000001]))
         c["idx"] = draw(st.integers(0, 2))
+        if c["bits"] == 1024 and draw(st.integers(0, 3)) == 0:
+            c["ntop"] = draw(st.sampled_from([0x80, 0x80, 0x81, 0xFF]))
+            c["idx"] = 0
         if c["private"]:
             c["format"] = draw(st.sampled_from(["PEM", "DER"]))
             c["pkcs"] = draw(st.sampled_from([1, 8]))
@@ -79,6 +83,7 @@ def strat_rt(draw, tier):
     elif fam == "dsa":
         c["pair"] = draw(st.sampled_from([[1024, 160]] if tier == "quick" else [[1024, 160], [2048, 224], [2048, 256]]))
         c["idx"] = draw(st.integers(0, 1))
+        c["ytop"] = draw(st.sampled_from([None, None, "80", "7f"]))
         if c["private"]:
             c["format"] = draw(st.sampled_from(["PEM", "DER"]))
             c["pkcs8"] = draw(st.sampled_from([None, True, False]))
@@ -118,11 +123,25 @@ def build_key(c):
     from Crypto.PublicKey import RSA, DSA, ECC
     fam = c["fam"]
     if fam == "rsa":
-        n, e, d, p, q = keys.rsa_numbers(c["bits"], c["idx"], c["e"])
+        if c.get("ntop"):
+            n, e, d, p, q = keys.rsa_numbers_top(c["bits"], c["ntop"], c["e"], c["idx"])
+        else:
+            n, e, d, p, q = keys.rsa_numbers(c["bits"], c["idx"], c["e"])
         k = RSA.construct((n, e, d, p, q))
         comp = {"n": n, "e": e, "d": d, "p": p, "q": q}
     elif fam == "dsa":
         y, g, p, q, x = keys.dsa_numbers(c["pair"][0], c["pair"][1], c["idx"])
+        if c.get("ytop"):
+            # private value chosen so that the leading byte of y sits at the sign-bit boundary (0x80) or needs no sign byte (< 0x80)
+            x = 2 + int.from_bytes(c["seed"], "big") % (q - 10000)
+            for _ in range(4000):
+                y = pow(g, x, p)
+                if y.bit_length() % 8 == 0 and (y >> (y.bit_length() - 8)) == 0x80 and c["ytop"] == "80":
+                    break
+                if y.bit_length() % 8 == 7 and c["ytop"] == "7f":
+                    break
+                x += 1
+            y = pow(g, x, p)
         k = DSA.construct((y, g, p, q, x))
         comp = {"y": y, "g": g, "p": p, "q": q, "x": x}
     else:
